@@ -333,6 +333,126 @@ Definition manifold_sculpting (nb : neighbors) (N D d : Z) : res :=
   forZ d (fun i => chk 347 i D) ;;                               (* data(i, index), i < d *)
   blk 348 0 d D.                                                 (* conservativeResize(d, NoChange) keeps rows 0..d-1 *)
 
+(* ---------------------------------------------------------------- dense matrix fills (wave 2) *)
+(* two extents that Eigen requires to be equal (operator-=, product, rankUpdate): a mismatch is an
+   assertion failure in the TAPKEE_DEBUG build and an out-of-range read otherwise *)
+Definition eqchk (site : nat) (a b : Z) : res := if a =? b then Ok else OOB site a b.
+
+(* for (i = 0; i < n; ++i) for (j = i; j < n; ++j) { begin[i], begin[j]; M(i, j) = M(j, i) = .. }, M is n x n *)
+Definition sym_fill (site : nat) (n : Z) : res :=
+  forZ n (fun i => forZ_from i n (fun j => chk site i n ;; chk site j n)).
+
+(* for i < r, j < c: M(i, j) of an r x c matrix; p(i), p(j) *)
+Definition full_fill (site : nat) (r c : Z) : res :=
+  forZ r (fun i => forZ c (fun j => chk site i r ;; chk site j c)).
+
+(* utils/matrix.hpp centerMatrix(r x c): matrix.colwise() -= col_means with col_means of length c *)
+Definition center_matrix (r c : Z) : res := eqchk 613 c r.
+
+(* routines/diffusion_maps.hpp compute_diffusion_matrix: N x N matrix, p of length N, two normalisations *)
+Definition diffusion_matrix (N : Z) : res :=
+  sym_fill 601 N ;; full_fill 602 N N ;; full_fill 603 N N.
+
+(* routines/multidimensional_scaling.hpp compute_distance_matrix, methods/multidimensional_scaling.hpp *)
+Definition distance_matrix (N : Z) : res := sym_fill 611 N ;; center_matrix N N.
+
+(* routines/pca.hpp compute_centered_kernel_matrix *)
+Definition centered_kernel_matrix (N : Z) : res := sym_fill 612 N ;; center_matrix N N.
+
+(* compute_distance_matrix(begin, end, landmarks, callback): L x L, begin[landmarks[i]] *)
+Definition landmark_distance_matrix (lm : list Z) (N : Z) : res :=
+  let L := Z.of_nat (length lm) in
+  forZ L (fun i => forZ_from i L (fun j =>
+    lm_get 614 lm i (fun a => chk 615 a N) ;; lm_get 614 lm j (fun b => chk 615 b N) ;;
+    chk 616 i L ;; chk 616 j L)) ;;
+  center_matrix L L.
+
+(* routines/pca.hpp project(P, mean, ..): P is prow x pcols, mean has mlen entries, samples have D;
+   embedding.row(iter - begin) = P^T * (x - mean) *)
+Definition project_full (N D prow mlen : Z) : res :=
+  eqchk 282 mlen D ;; eqchk 283 prow D ;; forZ N (fun i => chk 281 i N).
+
+(* routines/random_projection.hpp gaussian_projection_matrix(a, b): a x b matrix filled entry by entry;
+   methods/random_projection.hpp calls it with (current_dimension, target_dimension) *)
+Definition gaussian_projection_matrix (a b : Z) : res := full_fill 631 a b.
+
+(* routines/fa.hpp project: X is D x N (X.col(iter - begin) = x - mean), A is D x d,
+   M = A^T invC X is d x N, SC is d x d, result X^T A is N x d *)
+Definition factor_analysis (N D d mlen : Z) : res :=
+  eqchk 641 mlen D ;; forZ N (fun i => chk 642 i N) ;;
+  eqchk 643 D D ;;                 (* A * A^T + sig: D x D both *)
+  eqchk 644 d d.                   (* Identity(d, d) - A^T invC A *)
+
+(* ---------------------------------------------------------------- t-SNE work buffers (wave 2) *)
+(* external/barnes_hut_sne/tsne.hpp run(): X is D x N column-major (X[n * D + d]); Y, dY, uY, gains hold
+   N * no_dims doubles; exact mode: P, DD, Q hold N * N; Barnes-Hut mode: row_P (N + 1), col_P / val_P
+   (N * K), cur_P (N - 1), and the K-NN answer without the query has K entries *)
+Definition tsne_buffers (exact : bool) (N D nd K : Z) : res :=
+  forZ N (fun n => forZ D (fun dd => chk 651 (n * D + dd) (N * D))) ;;                 (* zeroMean(X) *)
+  (if exact then
+     forZ N (fun n => forZ N (fun m => chk 652 (n * N + m) (N * N))) ;;                  (* P, DD, Q *)
+     forZ N (fun n => forZ_from (n + 1) N (fun m =>
+       chk 653 (n * N + m) (N * N) ;; chk 653 (m * N + n) (N * N)))                      (* P symmetrised *)
+   else
+     forZ N (fun n => chk 654 (n + 1) (N + 1)) ;;                                        (* row_P[n + 1] *)
+     forZ K (fun m => chk 655 m (N - 1) ;; chk 656 m K)) ;;                              (* cur_P[m]; distances[m] *)
+  forZ (N * nd) (fun i => chk 657 i (N * nd)) ;;                                         (* Y, dY, uY, gains *)
+  forZ N (fun n => forZ nd (fun dd => chk 658 (n * nd + dd) (N * nd))).                  (* zeroMean(Y), dC *)
+
+(* quadtree.hpp: per-node buffers index[QT_NODE_CAPACITY], count[QT_NODE_CAPACITY] (capacity 1),
+   center_of_mass[QT_NO_DIMS], buff[QT_NO_DIMS]; `size` = entries in use before the insertion *)
+Definition qt_capacity : Z := 1.
+Definition qt_dims : Z := 2.
+Definition quadtree_node_insert (size : Z) : res :=
+  forZ qt_dims (fun dd => chk 661 dd qt_dims) ;;                                          (* center_of_mass[d] *)
+  (if size <? qt_capacity then chk 662 size qt_capacity else Ok) ;;                      (* index[size], count[size] *)
+  forZ size (fun n => chk 663 n qt_capacity).                                            (* index[n], count[n], n < size *)
+
+(* ---------------------------------------------------------------- VP-tree construction (wave 2) *)
+(* neighbors/vptree.hpp and barnes_hut_sne/vptree.hpp buildFromPoints(lower, upper) over `items` of n
+   entries; draw lower upper = (int)(uniform_random() * (upper - lower - 1)) *)
+Fixpoint vp_build (fuel : nat) (n lower upper : Z) (draw : Z -> Z -> Z) : res :=
+  match fuel with
+  | O => OutOfFuel 720
+  | S f =>
+      if upper =? lower then Ok else
+      chk 721 lower n ;;                                                                   (* items[lower] *)
+      if 1 <? upper - lower then
+        let i := draw lower upper + lower in
+        let median := (upper + lower) / 2 in
+        chk 722 i n ;;                                                                     (* swap(items[lower], items[i]) *)
+        blk 723 (lower + 1) (median - (lower + 1)) n ;;                                    (* nth_element first .. nth *)
+        blk 724 median (upper - median) n ;;                                               (*             nth .. last *)
+        chk 725 median n ;;                                                                (* items[median] *)
+        vp_build f n (lower + 1) median draw ;; vp_build f n median upper draw
+      else Ok
+  end.
+
+(* ---------------------------------------------------------------- cover tree (wave 2) *)
+(* covertree.hpp k_nearest_neighbor: cover_sets has num_cover_sets slots and is indexed with the raw
+   `scale` of every node that has children (push(cover_sets[chi->scale], ..)) and with 0 for the root.
+   f28 = the repair `num_cover_sets = max(101, 1 + deepest scale)` (false: 101 whatever the tree) *)
+Definition cover_sets_access (f28 : bool) (scales : list Z) : res :=
+  let deepest := fold_right Z.max 0 scales in
+  let ncs := if f28 then Z.max 101 (1 + deepest) else 101 in
+  chk 701 0 ncs ;; fold_right (fun s r => chk 702 s ncs ;; r) Ok scales.
+
+(* batch_insert along one chain of self-children: node scale = top_scale - max_scale, or max(100, ..) for
+   the node that holds coincident points; next_scale = min(max_scale - 1, get_scale(max_dist)).
+   g max_scale = get_scale(max_dist) of the points that are left (None: they all coincide, INT_MIN) *)
+Fixpoint bi_chain (fuel : nat) (top max : Z) (g : Z -> option Z) : option (list Z) :=
+  match fuel with
+  | O => None
+  | S f =>
+      match g max with
+      | None => Some [Z.max 100 (top - max)]
+      | Some s => match bi_chain f top (Z.min (max - 1) s) g with
+                  | None => None
+                  | Some l => Some ((top - max) :: l)
+                  end
+      end
+  end.
+
 (* ---------------------------------------------------------------- requests *)
 Inductive meth :=
 | KLLE | NPE | KLTSA | LLTSA | HLLE | LA | LPP | DM | ISOMAP | LISOMAP
@@ -410,6 +530,7 @@ Definition embed_body (v : variant) (c : cfg) (nb : neighbors) (perm rs : list Z
   | LPP =>
       neighbors_stage c ;; compute_laplacian nb N ;; geig v c D 0 ;; project N D
   | DM =>
+      diffusion_matrix N ;;
       eig v dn true N (d + 1) 0 ;;
       blk 401 0 d (d + 1) ;;                                    (* first.leftCols(d) of d+1 columns *)
       scale_cols d (eig_nvals v dn true (d + 1) 0) d ;;
@@ -417,8 +538,10 @@ Definition embed_body (v : variant) (c : cfg) (nb : neighbors) (perm rs : list Z
   | ISOMAP =>
       neighbors_stage c ;; shortest_distances nb N ;;
       eig v dn true N d 0 ;; scale_cols d (eig_nvals v dn true d 0) d
-  | MDS | KPCA =>
-      eig v dn true N d 0 ;; scale_cols d (eig_nvals v dn true d 0) d
+  | MDS =>
+      distance_matrix N ;; eig v dn true N d 0 ;; scale_cols d (eig_nvals v dn true d 0) d
+  | KPCA =>
+      centered_kernel_matrix N ;; eig v dn true N d 0 ;; scale_cols d (eig_nvals v dn true d 0) d
   | LISOMAP =>
       neighbors_stage c ;;
       select_landmarks N (c_L c) ;;
@@ -427,12 +550,16 @@ Definition embed_body (v : variant) (c : cfg) (nb : neighbors) (perm rs : list Z
       scale_cols d (eig_nvals v dn true d 0) d
   | LMDS =>
       select_landmarks N (c_L c) ;;
+      landmark_distance_matrix (lm_of c perm) N ;;
       eig v dn true (c_L c) d 0 ;;
       scale_cols d (eig_nvals v dn true d 0) d ;;
       triangulate (lm_of c perm) N d d (eig_nvals v dn true d 0)
   | PCA =>
-      eig v dn true D d 0 ;; project N D
-  | RP | FA | PASSTHRU => project N D
+      eig v dn true D d 0 ;; project_full N D D D              (* P = first: D x d; mean of length D *)
+  | RP =>
+      gaussian_projection_matrix D d ;; project_full N D D D   (* the matrix is D x d *)
+  | FA => factor_analysis N D d D
+  | PASSTHRU => project N D
   | SPE =>
       (if c_global c then Ok else neighbors_stage c) ;;
       match spe_clamp 2 N (c_nupd c) with
@@ -440,6 +567,7 @@ Definition embed_body (v : variant) (c : cfg) (nb : neighbors) (perm rs : list Z
       | Some nu => spe_iteration (c_global c) nb perm rs N nu
       end
   | TSNE =>
+      tsne_buffers (c_exact c) N D d (c_K c) ;;
       (if c_exact c then Ok else tsne_bh_rows N (c_K c)) ;;
       tsne_map (v_f12 v) (c_exact c) N d
   | MS =>
@@ -516,6 +644,50 @@ Fixpoint ms_adjust (fuel : nat) (repaired : bool) (err : Z -> option Q) (pos : Z
       else ms_adjust f repaired err (pos + 1) (S rounds)
   end.
 
+
+(* ---------------------------------------------------------------- loops with an explicit cap (wave 2) *)
+(* first counter value n' >= n with p n' = true *)
+Fixpoint count_until (fuel : nat) (p : nat -> bool) (n : nat) : option nat :=
+  match fuel with
+  | O => None
+  | S f => if p n then Some n else count_until f p (S n)
+  end.
+
+(* tsne.hpp computeGaussianPerplexity: `while (!found && iter < 200) { ..; iter++; }`; found_at i = the
+   tolerance test succeeds in pass i (any oracle: NaN entropies never succeed) *)
+Definition perplexity_search (fuel : nat) (found_at : nat -> bool) : option nat :=
+  count_until fuel (fun i => found_at i || (200 <=? i)%nat) 0.
+
+(* fa.hpp: `while (iter < max_iter) { ++iter; ..; if (iter > 1 && fabs(newll - ll) < eps) break; }` *)
+Definition fa_loop (fuel : nat) (max_iter : nat) (conv_at : nat -> bool) : option nat :=
+  count_until fuel (fun i => (max_iter <=? i)%nat || ((1 <? i)%nat && conv_at i)) 0.
+
+(* quadtree.hpp insert: a leaf that holds p subdivides when q arrives; after t halvings the cell has
+   half-width w / 2^t, and p, q (at sup-distance delta > 0) can share a CLOSED cell only while
+   delta <= 2 * (w / 2^t), i.e. delta * 2^t <= 2 w: the number of passes bounds the depth *)
+Definition qt_depth (fuel : nat) (w delta : Q) : option nat :=
+  count_until fuel (fun t => negb (Qle_bool (delta * (2 ^ (Z.of_nat t))) (2 * w))) 0.
+
+(* a loop whose state changes through `step` until it returns None *)
+Fixpoint iter_fuel {S : Type} (fuel : nat) (step : S -> option S) (s : S) (n : nat) : option (S * nat) :=
+  match fuel with
+  | O => None
+  | Datatypes.S f => match step s with
+                     | None => Some (s, n)
+                     | Some s' => iter_fuel f step s' (Datatypes.S n)
+                     end
+  end.
+
+(* covertree.hpp internal_batch_nearest_neighbor, case c: descend; current_scale++ until
+   current_scale > max_scale; grow cs ms = max_scale after descending from scale cs *)
+Definition ct_descend_step (grow : Z -> Z -> Z) (st : Z * Z) : option (Z * Z) :=
+  let '(cs, ms) := st in if ms <? cs then None else Some (cs + 1, grow cs ms).
+
+(* manifold_sculpting.hpp adjust_point_at_index, whole sweeps: one pass of `while (!finish)` over the d
+   coordinates either improves the error (new state) or leaves finish = true; the state is the ordinal of
+   the double old_error (finite non-negative doubles are order-isomorphic to an interval of Z) *)
+Definition ms_sweep_step (improve : Z -> option Z) (e : Z) : option Z := improve e.
+
 (* ---------------------------------------------------------------- site table
  101 eigendecomposition.hpp:72 / generalized_eigendecomposition.hpp:61  eigenvectors().rightCols(d)
  102 eigendecomposition.hpp:73 / generalized..:62   eigenvalues().tail(d)
@@ -538,4 +710,15 @@ Fixpoint ms_adjust (fuel : nat) (repaired : bool) (err : Z -> option Q) (pos : Z
  325-327 barnes_hut_sne/tsne.hpp:657-721 search(K+1), distances[m+1], col_P[row_P[n]+m]
  340-348 routines/manifold_sculpting.hpp: neighbors[neighbors[i][j]][l], bottomRows(D-d), topRows(d), data(i, index), conservativeResize
  401,402 methods/diffusion_map.hpp: first.leftCols(d), first.col(d)
+ 601-603 routines/diffusion_maps.hpp:50-75 diffusion_matrix(i, j), (j, i), p(i), p(j)
+ 611,612 routines/multidimensional_scaling.hpp:57-64, routines/pca.hpp:83-89 distance / kernel matrix fill
+ 613 utils/matrix.hpp:18 matrix.colwise() -= col_means
+ 614-616 routines/multidimensional_scaling.hpp:30-37 begin[landmarks[i]], distance_matrix(i, j) (L x L)
+ 281-283 routines/pca.hpp:26-32 embedding.row(iter - begin), P^T * (x - mean)
+ 631 routines/random_projection.hpp:19-25 projection_matrix(i, j)
+ 641-644 routines/fa.hpp:26-59 X.col(iter - begin), A A^T + sig, Identity(d, d) - A^T invC A
+ 651-658 barnes_hut_sne/tsne.hpp: zeroMean X[n*D+d]; P/DD/Q[n*N+m]; row_P[n+1]; cur_P[m]; distances[m]; Y/dY/uY/gains[i]; dC[n*D+d]
+ 661-663 barnes_hut_sne/quadtree.hpp:204-237 center_of_mass[d], index[size], count[size], index[n]
+ 701,702 neighbors/covertree.hpp:646-659, 520-547 cover_sets[0], cover_sets[chi->scale]   (F28)
+ 720-725 neighbors/vptree.hpp:149-169, barnes_hut_sne/vptree.hpp:216-243 buildFromPoints
 *)
